@@ -20,7 +20,7 @@
 (* the start are added); errors are built from the parser *before* the     *)
 (* body ran.                                                               *)
 (***************************************************************************)
-EXTENDS Common, Utf8, MatcherRef, StripTrimRef, ParseIntRef, TLC
+EXTENDS Common, Utf8, MatcherRef, StripTrimRef, ParseIntRef, ParserMethod
 
 CONSTANTS Origs,    \* original strings (valid UTF-8)
           Bases,    \* start offsets given to with_start_offset (0 = Parser::new)
@@ -33,6 +33,14 @@ vars == <<orig, base, lo, hi, so, dir, yls, hist>>
 View == <<orig, base, lo, hi, so, dir, yls>>
 
 NoArgOps == {"trim", "trim_start", "trim_end", "parse_u8", "parse_i8", "parse_bool"}
+\* parser_method! forms applied to the parser (growth: macro x Parser composition); the argument n selects one of
+\* the fixed alternative lists PmAlts (literals must be compile-time tokens in the generated / harness code)
+PmOps    == {"pm_strip_prefix", "pm_strip_suffix", "pm_find_skip", "pm_rfind_skip", "pm_trim_start_matches", "pm_trim_end_matches"}
+PmAlts   == << << <<97>>, <<97, 44>> >>,                   \* "a" => 1, "a," => 2   (first listed wins)
+              << <<195, 177>>, <<44>> >>,                   \* "n-tilde" => 1, "," => 2
+              << <<97, 44>>, <<32>> >> >>                   \* "a," => 1, " " => 2
+PmAltBytes(k) == [b \in 1..Len(PmAlts[k]) |-> <<PmAlts[k][b]>>]
+PmForm(o) == SubSeq(o, 4, Len(o))
 PatOps   == {"trim_matches", "trim_start_matches", "trim_end_matches", "strip_prefix", "strip_suffix",
              "find_skip", "rfind_skip"}
 SplitOps == {"split", "rsplit", "split_keep", "split_terminator", "rsplit_terminator"}
@@ -43,10 +51,11 @@ OpSet == {MkOp(o, <<>>, 0) : o \in NoArgOps}
            \cup {MkOp(o, p, 0) : o \in PatOps, p \in Pats}
            \cup {MkOp(o, d, 0) : o \in SplitOps, d \in Delims}
            \cup {MkOp(o, <<>>, n) : o \in SkipOps, n \in SkipNs}
+           \cup {MkOp(o, <<>>, k) : o \in PmOps, k \in 1..Len(PmAlts)}
 
 DirOf(o) == IF o \in {"trim", "trim_matches"} THEN "B"
             ELSE IF o \in {"trim_end", "trim_end_matches", "strip_suffix", "rfind_skip", "rsplit",
-                           "rsplit_terminator", "skip_back"} THEN "E"
+                           "rsplit_terminator", "skip_back", "pm_strip_suffix", "pm_rfind_skip", "pm_trim_end_matches"} THEN "E"
             ELSE "S"
 
 -----------------------------------------------------------------------------
@@ -114,13 +123,23 @@ Effect(o, rem, y) ==
       [] o.op = "parse_i8" ->
             LET r == PrefixParse(rem, TRUE, I8Max, I8Min) IN
             IF IsSome(r) THEN OkCut(r.some.consumed, 0, y, IntVal(r.some)) ELSE Fail("ParseInteger")
+      \* parser_method!: the macro computes the new remainder with its own match loops (ParserMethod.tla) and then
+      \* moves the parser with skip / skip_back; the default branch leaves the parser untouched (see PmUnchanged)
+      [] o.op \in PmOps ->
+            LET form == CASE o.op = "pm_strip_prefix" -> "strip_prefix" [] o.op = "pm_strip_suffix" -> "strip_suffix"
+                          [] o.op = "pm_find_skip" -> "find_skip" [] o.op = "pm_rfind_skip" -> "rfind_skip"
+                          [] o.op = "pm_trim_start_matches" -> "trim_start_matches" [] OTHER -> "trim_end_matches"
+                r == FormR(form, PmAltBytes(o.n), rem)
+            IN OkCut(r.lo, len - r.hi, y, r.b)
       [] o.op = "parse_bool" ->
             IF IsPrefixOf(<<116, 114, 117, 101>>, rem) THEN OkCut(4, 0, y, TRUE)
             ELSE IF IsPrefixOf(<<102, 97, 108, 115, 101>>, rem) THEN OkCut(5, 0, y, FALSE)
             ELSE Fail("ParseBool")
 
 \* does the method hand back a value besides the parser?
-Returns(o) == o \in SplitOps \cup {"parse_u8", "parse_i8", "parse_bool"}
+Returns(o) == o \in SplitOps \cup {"parse_u8", "parse_i8", "parse_bool"} \cup PmOps
+\* branching forms whose default branch ran do not call skip / skip_back: direction and offsets stay as they were
+PmUnchanged(o, e) == o.op \in {"pm_strip_prefix", "pm_strip_suffix", "pm_find_skip", "pm_rfind_skip"} /\ e.ret = 0
 
 \* the struct after the method, as the code computes it
 Rem == Slice(orig, lo, hi)
@@ -135,7 +154,7 @@ Do(o) ==
     /\ e.ok
     /\ lo' = lo + e.cs /\ hi' = hi - e.ce
     /\ so' = NewSo(o, e)
-    /\ dir' = DirOf(o.op) /\ yls' = e.yls
+    /\ dir' = (IF PmUnchanged(o, e) THEN dir ELSE DirOf(o.op)) /\ yls' = e.yls
     /\ hist' = Append(hist, o)
     /\ UNCHANGED <<orig, base>>
 
